@@ -57,6 +57,9 @@ type SchedSpec struct {
 	Decisions   []uint64 `json:"decisions,omitempty"` // explicit tape (replay / minimised); missing entries are 0
 	Explicit    bool     `json:"explicit,omitempty"`  // use Decisions even if empty
 	ShuffleMaps bool     `json:"shuffle_maps,omitempty"`
+	// MemYields: statements that append to a slice are scheduling points too (a task may be
+	// preempted between growing a possibly shared backing array and reading it back)
+	MemYields bool `json:"mem_yields,omitempty"`
 }
 
 type Scenario struct {
@@ -165,7 +168,7 @@ type RunCtx struct {
 // the scenario's schedule seed and the execution number.
 func (rc *RunCtx) NextConfig() simrt.Config {
 	sc := rc.sc
-	c := simrt.Config{Seed: simrt.Mix(sc.Sched.Seed, uint64(rc.execs)), Policy: simrt.Policy(sc.Sched.Policy), PCTDepth: sc.Sched.PCTDepth, KeepLog: rc.KeepLog, MaxSteps: rc.MaxSteps}
+	c := simrt.Config{Seed: simrt.Mix(sc.Sched.Seed, uint64(rc.execs)), Policy: simrt.Policy(sc.Sched.Policy), PCTDepth: sc.Sched.PCTDepth, KeepLog: rc.KeepLog, MaxSteps: rc.MaxSteps, MemYields: sc.Sched.MemYields}
 	rc.execs++
 	if sc.Sched.Explicit || sc.Sched.Decisions != nil {
 		if rc.cursor < len(sc.Sched.Decisions) {
@@ -191,7 +194,7 @@ func (rc *RunCtx) Done(res simrt.Result) {
 // the scenario's tape (e.g. the fault-free pre-run that only builds the fault menu).
 func (rc *RunCtx) ScratchConfig() simrt.Config {
 	sc := rc.sc
-	return simrt.Config{Seed: simrt.Mix(sc.Sched.Seed, 0xa0a0), Policy: simrt.Policy(sc.Sched.Policy), PCTDepth: sc.Sched.PCTDepth}
+	return simrt.Config{Seed: simrt.Mix(sc.Sched.Seed, 0xa0a0), Policy: simrt.Policy(sc.Sched.Policy), PCTDepth: sc.Sched.PCTDepth, MemYields: sc.Sched.MemYields}
 }
 
 func (rc *RunCtx) Logf(format string, a ...any) {
@@ -347,6 +350,7 @@ func genScenario(p Property, base uint64, tier string, idx int) *Scenario {
 		sc.Sched.Policy = int(simrt.PolLast)
 	}
 	sc.Sched.ShuffleMaps = sr.Chance(0.5)
+	sc.Sched.MemYields = sr.Chance(0.25)
 	return sc
 }
 
